@@ -113,13 +113,15 @@ def row_body(chk) -> RowBody:
         if p[0] == "fold":
             _, lid, name, init, upd, it = p
             mu = ("mu", lid, name)
-            ups = _parts(upd)
-            if not ups or ups[0] != mu or it is None:
-                raise AnalysisError("FrameData._make_body_bytes: accumulation loop of an unrecognised shape")
             (rb.tail if seen_piece else rb.head).extend(_parts(init))
             el = ("elem", it, lid)
-            for piece in ups[1:]:
-                rb.pieces.append((it, el, piece))
+            for _, alt in alternatives(upd):      # the slot may be appended in one of several (conditional) forms
+                ups = _parts(alt)
+                if not ups or ups[0] != mu or it is None:
+                    raise AnalysisError("FrameData._make_body_bytes: accumulation loop of an unrecognised shape")
+                for piece in ups[1:]:
+                    if (it, el, piece) not in rb.pieces:
+                        rb.pieces.append((it, el, piece))
             seen_piece = True
         elif is_call(p, "join") and p[2] and p[2][0][0] == "comp" and len(p[2][0][3]) == 1 and not p[2][0][3][0][2]:
             comp = p[2][0]
